@@ -130,6 +130,10 @@ static int add_threads(m_thpool_t *pool, int num) {
     int err = 0;
     for (int i = 0; i < num && err == 0; i++) M_VERIF_LOOP(pool_spawn) {
         pthread_t *th = memhook._calloc(1, sizeof(pthread_t));
+        if (!th) {
+            err = ENOMEM;
+            break;
+        }
         err = pthread_create(th, &tattr, thpool_thread, (void *) pool);
         if (err == 0) {
             m_list_insert(pool->threads, th);
